@@ -3,7 +3,8 @@
    (harness/c20.go: strace of the real managers, compared call by call with these scripts). *)
 From stdpp Require Import gmap.
 From Coq Require Import NArith List.
-From Verif Require Import Base.Bytes FS.Crash FS.CrashProofs.
+From Coq Require Import String.
+From Verif Require Import Base.Bytes FS.Crash FS.CrashProofs FS.PersistSyntax FS.PersistSpec Gen.Persist.
 Local Open Scope N_scope.
 
 (* Message board post, threaded-news save, ban-list save: at EVERY crash point the store's file holds the complete
@@ -62,6 +63,44 @@ Proof.
   exists {[ [1] := [7] ]}, [1], [7], [8], 1%nat. vm_compute. repeat split; congruence.
 Qed.
 
+(* ---- the scripts are the source's: Gen/Persist.v is REGENERATED from internal/mobius/*.go on every run ----
+   Exactly these functions of internal/mobius call anything that changes the file system ... *)
+Theorem C20_only_known_functions_touch_the_file_system : map fst persist_calls = persist_functions.
+Proof. vm_compute. reflexivity. Qed.
+(* ... the shared helper is the atomic write of the model, for every value of its arguments ... *)
+Theorem C20_writeFileAtomic_is_atomic_write :
+  exists pe de, forall rho gamma,
+    derive rho gamma (calls_of "writeFileAtomic" persist_calls) = Some (atomic_write (eval rho pe) (eval rho de)).
+Proof. exists (PVar "path"), (PVar "data"). intros rho gamma. reflexivity. Qed.
+(* ... and each persistent-state update issues, call for call, the script its crash theorem is about: for every
+   value of the source expressions (rho) and every outcome of the conditions (gamma).  The rename of an account
+   file happens exactly when the login changes; that the two paths differ exactly then is the hypothesis. *)
+Theorem C20_sources_issue_the_modelled_scripts :
+  (exists pe de, forall rho gamma,
+     derive rho gamma (calls_of "FlatNews.Write" persist_calls) = Some (board_post (eval rho pe) (eval rho de))) /\
+  (exists pe de, forall rho gamma,
+     derive rho gamma (calls_of "ThreadedNewsYAML.writeFile" persist_calls) = Some (news_save (eval rho pe) (eval rho de))) /\
+  (exists pe de, forall rho gamma,
+     derive rho gamma (calls_of "BanFile.Add" persist_calls) = Some (ban_save (eval rho pe) (eval rho de))) /\
+  (exists pe de, forall rho gamma,
+     derive rho gamma (calls_of "YAMLAccountManager.Create" persist_calls) = Some (acct_create (eval rho pe) (eval rho de))) /\
+  (exists pe, forall rho gamma,
+     derive rho gamma (calls_of "YAMLAccountManager.Delete" persist_calls) = Some (acct_delete (eval rho pe))) /\
+  (exists po pn de g, forall rho gamma,
+     gamma g = negb (bool_decide (eval rho po = eval rho pn)) ->
+     derive rho gamma (calls_of "YAMLAccountManager.Update" persist_calls) =
+       Some (acct_update (eval rho po) (eval rho pn) (eval rho de))).
+Proof.
+  split; [exists (PVar "f.filePath"), (PVar "f.data"); intros; reflexivity|].
+  split; [exists (PVar "n.filePath"), (PVar "out"); intros; reflexivity|].
+  split; [exists (PVar "filepath.Join(bf.filePath)"), (PVar "out"); intros; reflexivity|].
+  split; [exists (PVar "accountPath"), (PVar "b"); intros; reflexivity|].
+  split; [eexists; intros; reflexivity|].
+  exists (PVar "oldPath"), (PVar "newPath"), (PVar "out"), "oldLogin != newLogin"%string. intros rho gamma Hg.
+  unfold acct_update. cbn in Hg |- *. rewrite Hg.
+  destruct (bool_decide (rho "oldPath"%string = rho "newPath"%string)); reflexivity.
+Qed.
+
 Example C20_nonvacuous :
   let s : fs := {[ [1] := [7] ]} in
   crash_at 2 s (atomic_write [1] [8]) !! [1] = Some [7] /\ crash_at 3 s (atomic_write [1] [8]) !! [1] = Some [8].
@@ -76,3 +115,6 @@ Print Assumptions C20_account_create_exclusive.
 Print Assumptions C20_account_update_atomic.
 Print Assumptions C20_account_delete_atomic.
 Print Assumptions C20_in_place_write_refuted.
+Print Assumptions C20_only_known_functions_touch_the_file_system.
+Print Assumptions C20_writeFileAtomic_is_atomic_write.
+Print Assumptions C20_sources_issue_the_modelled_scripts.
